@@ -282,3 +282,97 @@ Proof.
   - apply Nat.leb_le. pose proof (fiber_bound _ _ _ _ _ _ _ H) as B.
     rewrite attempts_conn_fails in B. exact B.
 Qed.
+
+(* -- "exactly the attempts the policy decided": the trace walks the plan as the recorded decisions
+      say, and the result is the one the end of the trace prescribes ------------------------------ *)
+Lemma Exec_follow idem plan s cl last outs tr r :
+  Exec decide idem plan s cl last outs tr r -> follow plan last tr = Some r.
+Proof.
+  induction 1 as [ s cl last outs | t rest s cl last | t rest s cl last outs tr r H IH
+                 | t rest s cl last outs | t rest s cl last e outs s' nc tr r E H IH
+                 | t rest s cl last e outs s' nc tr r E H IH
+                 | t rest s cl last e outs s' E | t rest s cl last e outs s' E ];
+    cbn [follow ev_target is_nil_ev]; try rewrite N.eqb_refl; cbn [negb]; try reflexivity; assumption.
+Qed.
+
+Lemma fiber_followed p idem cl0 plan outs tr r :
+  fiber p idem cl0 plan outs = (tr, r) -> follow plan None tr = Some r.
+Proof. intros H. apply fiber_Exec in H. exact (Exec_follow _ _ _ _ _ _ _ _ H). Qed.
+
+Lemma follow_next_target plan : forall pre last t c e nc ev post r,
+  follow plan last (pre ++ EvAttempt t c (AErr e (RetryNextTarget nc)) :: ev :: post) = Some r ->
+  exists p1 p2, plan = p1 ++ t :: ev_target ev :: p2.
+Proof.
+  intros pre. revert plan. induction pre as [|a pre IH]; intros plan last t c e nc ev post r H.
+  - cbn [app follow] in H. destruct plan as [|t0 plan']; [discriminate|].
+    cbn [ev_target] in H. destruct (t =? t0)%N eqn:Et; [|discriminate]. apply N.eqb_eq in Et. subst t0.
+    cbn [negb] in H. cbn [follow] in H. destruct plan' as [|t1 plan'']; [discriminate|].
+    destruct (ev_target ev =? t1)%N eqn:E1; [|discriminate]. apply N.eqb_eq in E1. subst t1.
+    now exists [], plan''.
+  - cbn [app follow] in H. destruct plan as [|t0 plan']; [discriminate|].
+    destruct (negb (ev_target a =? t0)%N); [discriminate|].
+    assert (Hne : is_nil_ev (pre ++ EvAttempt t c (AErr e (RetryNextTarget nc)) :: ev :: post) = false)
+      by (destruct pre; reflexivity).
+    destruct a as [ta|ta ca [|ea da]].
+    + destruct (IH _ _ _ _ _ _ _ _ _ H) as [p1 [p2 ->]]. now exists (t0 :: p1), p2.
+    + rewrite Hne in H. discriminate.
+    + destruct da as [n1|n1| |]; try (rewrite Hne in H; discriminate).
+      * destruct (IH _ _ _ _ _ _ _ _ _ H) as [p1 [p2 Hp]]. now exists p1, p2.
+      * destruct (IH _ _ _ _ _ _ _ _ _ H) as [p1 [p2 ->]]. now exists (t0 :: p1), p2.
+Qed.
+
+(* after RetryNextTarget the next event is on the successor of that target in the plan *)
+Lemma fiber_next_target p idem cl0 plan outs tr r :
+  fiber p idem cl0 plan outs = (tr, r) ->
+  forall pre t c e nc ev post, tr = pre ++ EvAttempt t c (AErr e (RetryNextTarget nc)) :: ev :: post ->
+  exists p1 p2, plan = p1 ++ t :: ev_target ev :: p2.
+Proof.
+  intros H pre t c e nc ev post ->. apply fiber_followed in H.
+  exact (follow_next_target _ _ _ _ _ _ _ _ _ _ H).
+Qed.
+
+Lemma fiber_trace_prop_full p idem cl0 plan outs tr r :
+  fiber p idem cl0 plan outs = (tr, r) -> prop_trace_full p idem plan tr r = true.
+Proof.
+  intros H. unfold prop_trace_full. rewrite (fiber_trace_prop_ok _ _ _ _ _ _ _ H). cbn [andb].
+  unfold followed_ok. rewrite (fiber_followed _ _ _ _ _ _ _ H).
+  destruct (fiber_result_eq_dec r r); [reflexivity|contradiction].
+Qed.
+
+(* one fiber, on the attempts only: a failed attempt is followed by another attempt only if the
+   session, fed the errors in order, decided a retry (sessions are not touched by failed connection
+   acquisitions) *)
+Lemma Exec_attempt_decisions idem (plan : list N) s cl last outs tr r :
+  Exec decide idem plan s cl last outs tr r ->
+  forall t c e d rest, attempts tr = EvAttempt t c (AErr e d) :: rest ->
+  exists s', decide s (mk_ri e idem c) = (s', d) /\
+             (rest <> [] -> is_retry d = true /\
+                exists (plan' : list N) cl' last' outs' (tr' : list (event N)),
+                  Exec decide idem plan' s' cl' last' outs' tr' r /\ attempts tr' = rest).
+Proof.
+  induction 1 as [ s cl last outs | t0 rest0 s cl last | t0 rest0 s cl last outs tr r H IH
+                 | t0 rest0 s cl last outs | t0 rest0 s cl last e0 outs s' nc tr r E H IH
+                 | t0 rest0 s cl last e0 outs s' nc tr r E H IH
+                 | t0 rest0 s cl last e0 outs s' E | t0 rest0 s cl last e0 outs s' E ];
+    intros t c e d rest Ha; cbn in Ha; try discriminate.
+  - exact (IH _ _ _ _ _ Ha).
+  - injection Ha as <- <- <- <- <-. exists s'. split; [assumption|]. intros _. split; [reflexivity|].
+    do 5 eexists. split; [exact H|reflexivity].
+  - injection Ha as <- <- <- <- <-. exists s'. split; [assumption|]. intros _. split; [reflexivity|].
+    do 5 eexists. split; [exact H|reflexivity].
+  - injection Ha as <- <- <- <- <-. exists s'. split; [assumption|]. intros Hn. now contradiction Hn.
+  - injection Ha as <- <- <- <- <-. exists s'. split; [assumption|]. intros Hn. now contradiction Hn.
+Qed.
+
+Lemma Exec_attempt_ok_last idem (plan : list N) s cl last outs tr r :
+  Exec decide idem plan s cl last outs tr r ->
+  forall t c rest, attempts tr = EvAttempt t c AOk :: rest -> rest = [].
+Proof.
+  induction 1 as [ s cl last outs | t0 rest0 s cl last | t0 rest0 s cl last outs tr r H IH
+                 | t0 rest0 s cl last outs | t0 rest0 s cl last e0 outs s' nc tr r E H IH
+                 | t0 rest0 s cl last e0 outs s' nc tr r E H IH
+                 | t0 rest0 s cl last e0 outs s' E | t0 rest0 s cl last e0 outs s' E ];
+    intros t c rest Ha; cbn in Ha; try discriminate.
+  - exact (IH _ _ _ Ha).
+  - now injection Ha as _ _ <-.
+Qed.
